@@ -124,7 +124,7 @@ def report_found(ctx, found):
         ctx.violation(sig, what, {"kind": "c15-path", "path": e["path"], "result": e["res"], "ops": ops_of(e["path"])})
 
 
-def replay(ctx, paths, label, naddr):
+def replay_paths(ctx, paths, label, naddr):
     pfile = os.path.join(ctx.work, "paths-%s.ndjson" % label)
     rfile = os.path.join(ctx.work, "replay-%s.ndjson" % label)
     kit.write_ndjson(pfile, paths)
@@ -134,8 +134,6 @@ def replay(ctx, paths, label, naddr):
 
 def run(ctx):
     ctx.build()
-    if getattr(ctx, "replay_file", None):
-        return run_replay_file(ctx)
     ctx.assumptions += [
         "addresses are identified with 1..NAddr (<= 3) and host objects with the order of their creation; a call passes at most one "
         "host except ReplaceAll (distinct addresses per call)",
@@ -173,7 +171,7 @@ def run(ctx):
         paths = emit(ctx, "Gen_HostSet_%s%s.cfg" % (variant, suffix), "EDGE")
         if len(paths) < 1000:
             raise kit.Inconclusive("only %d paths emitted for %s" % (len(paths), variant))
-        results = replay(ctx, paths, variant, naddr=2)
+        results = replay_paths(ctx, paths, variant, naddr=2)
         c, errs = judge_results(ctx, paths, results, variant, found)
         if errs > len(paths) * 0.01:
             raise kit.Inconclusive("replay driver unhealthy: %d of %d %s paths failed to run" % (errs, len(paths), variant))
@@ -274,14 +272,15 @@ def run(ctx):
                        "path of HealthGen + every outcome sequence of fixed length for thresholds {1,2,3}^2; non-trivial = the flag flips")
 
 
-def run_replay_file(ctx):
-    with open(ctx.replay_file) as f:
-        art = json.load(f)["artefact"]
+def replay(ctx, rep):
+    """bin/check <id> --replay <file>: re-execute the recorded path on the real host.Set."""
+    ctx.build()
+    art = rep["artefact"]
     if art.get("kind") != "c15-path":
         raise kit.Inconclusive("replay of %s artefacts is not supported" % art.get("kind"))
     ctx.mc("host", "HostSet", "MC_HostSet_fixed_quick.cfg", workers=8, timeout=600)
     naddr = len(art["path"][0]["obs"]["all"])
-    results = replay(ctx, [art["path"]], "single", naddr=naddr)
+    results = replay_paths(ctx, [art["path"]], "single", naddr=naddr)
     found = {}
     judge_results(ctx, [art["path"]], results, "replay", found)
     ctx.sample({"ops": art["ops"], "result": results[0]})
